@@ -94,7 +94,7 @@ def run_case(case):
     if kind == 'vacancy':
         calc, desc = R.vacancy_calculator(rng)
     else:
-        calc, desc = R.interstitial_calculator(rng)
+        calc, desc = R.interstitial_calculator(rng, permute_chem=True)
     crys = calc.crys
     group = geom.full_group(crys.lattice, crys.basis)
     if len(group) != len(crys.G):
